@@ -2393,8 +2393,11 @@ func (n *RegexNode) FindStartingLiteralNode(allowZeroWidth bool) *RegexNode {
 				node = node.Children[0]
 				continue
 			case NtLoop, NtLazyloop:
-				node = node.Children[0]
-				continue
+				// a loop that may run zero times guarantees nothing about how the match begins
+				if node.M > 0 {
+					node = node.Children[0]
+					continue
+				}
 			case NtPosLook:
 				if allowZeroWidth {
 					node = node.Children[0]
